@@ -10,7 +10,22 @@ import (
 
 func TestC15(t *testing.T) {
 	params := C15Params(thorough())
-	checkFile(t, "C15", func(rt *rapid.T) *harness.Program {
+	rec := harness.NewRecorder("C15", "file")
+	completed := false
+	defer func() { rec.Flush(completed) }()
+	// queue part of the matrix (one quarter of the cases)
+	qparams := C05Params(thorough())
+	qparams.MaxBlocks = 10
+	checkQueueRec(t, rec, "C15", func(rt *rapid.T) *harness.QProgram {
+		p := harness.GenQProgram(rt, qparams)
+		p.Steps = append(p.Steps, harness.QStep{K: harness.QMisuse})
+		if rapid.IntRange(0, 2).Draw(rt, "more") == 0 {
+			p.Steps = append(p.Steps, harness.QStep{K: harness.QWrite, A: 700}, harness.QStep{K: harness.QNext}, harness.QStep{K: harness.QFlush},
+				harness.QStep{K: harness.QDrain, A: 1}, harness.QStep{K: harness.QMisuse}, harness.QStep{K: harness.QProbe})
+		}
+		return p
+	}, RunC15Queue)
+	checkFileRec(t, rec, "C15", func(rt *rapid.T) *harness.Program {
 		p := harness.GenProgram(rt, params)
 		// matrix after the prefix, and (sometimes) once more after further history
 		p.Items = append(p.Items, harness.Item{Misuse: true})
@@ -19,4 +34,5 @@ func TestC15(t *testing.T) {
 		}
 		return p
 	}, RunC15)
+	completed = true
 }
